@@ -77,12 +77,15 @@ func getUnifiedDiff(a, b string) (string, int, int) {
 				received := strings.Join(aLines[i1:i2], "")
 
 				if shouldPrintHighlights(expected, received) {
-					diff, i, d := singlelineDiff(received, expected)
-					s.WriteString(diff)
-					inserted += i
-					deleted += d
+					// singlelineDiff reports nothing when it cannot tell the lines apart
+					// (e.g. they differ only in invalid UTF-8); print them as plain rows then
+					if diff, i, d := singlelineDiff(received, expected); diff != "" {
+						s.WriteString(diff)
+						inserted += i
+						deleted += d
 
-					continue
+						continue
+					}
 				}
 
 				fallback = true
@@ -248,5 +251,9 @@ func prettyDiff(expected, received, name string, line int) string {
 	}
 
 	diff, i, d := differ(expected, received)
+	if diff == "" {
+		// the texts differ, so the report must not be empty: fall back to line rows
+		diff, i, d = getUnifiedDiff(expected, received)
+	}
 	return buildDiffReport(i, d, diff, name, line)
 }
